@@ -130,12 +130,17 @@ pub fn to_wire(key: &Key, providers: &[u32], version: u8, announce: bool) -> Wir
 pub struct Universe {
     pub keys: Vec<Key>,
     pub provider_sets: Vec<Vec<u32>>,
+    /// A large universe (hundreds of items): responses of many kilobytes.
+    pub big: bool,
 }
 
 impl Universe {
     pub fn gen(t: &mut Tape) -> Self {
         let mut keys = Vec::new();
-        let n_origin = 2 + t.choose(8);
+        // mostly small (so that updates collide), sometimes large (so that
+        // responses span many kilobytes and many socket buffers)
+        let big = t.chance(1, 12);
+        let n_origin = if big { 40 + t.choose(300) } else { 2 + t.choose(8) };
         for i in 0..n_origin {
             if t.chance(1, 3) {
                 let plen = *t.pick(&[0u8, 1, 32, 48, 64, 127, 128]);
@@ -176,7 +181,7 @@ impl Universe {
             vec![65101, 65102, 65103],
             (0..40).map(|i| 65200 + i).collect(),
         ];
-        Universe { keys, provider_sets }
+        Universe { keys, provider_sets, big }
     }
 
     pub fn random_set(&self, t: &mut Tape) -> DataSet {
@@ -202,7 +207,7 @@ impl Universe {
         if self.keys.is_empty() {
             return;
         }
-        let n = t.choose(5);
+        let n = if self.big && t.chance(1, 2) { t.choose(60) } else { t.choose(5) };
         for _ in 0..n {
             let k = t.pick(&self.keys).clone();
             if set.contains_key(&k) {
